@@ -325,6 +325,23 @@ func (e *c20Engine) generate(seed uint64) (*kit.Trace, *kit.Rng) {
 		}
 		t.Clients = append(t.Clients, ops)
 	}
+	if kind == kindLin && nt <= 4 && cr.Chance(1, 4) {
+		// a bystander: one more task using its OWN private filter (other
+		// tweak, other shape). Nothing the other tasks do may disturb it, and
+		// it must not disturb them: state shared between Filter objects
+		// (package-level caches) shows up here.
+		t.Setup = append(t.Setup, kit.Op{K: "bymsg", N: []int64{int64(cr.Range(1, 16)), int64(cr.Range(1, 6)), int64(cr.U32()), int64(cr.Intn(3))}})
+		var ops []kit.Op
+		for i, n := 0, wr.Range(2, 8); i < n; i++ {
+			o := e.genOp(wr, kind, 4, 0, nt, nm, ntx, pool, hashes)
+			if wr.Chance(1, 5) {
+				o = kit.Op{K: "mtx", H: wr.Intn(ntx)}
+			}
+			o.S = "by"
+			ops = append(ops, o)
+		}
+		t.Clients = append(t.Clients, ops)
+	}
 	return t, root.Sub("schedule")
 }
 
@@ -467,6 +484,9 @@ type c20World struct {
 	pre    [][]byte
 	init   int
 	filter *bloom.Filter
+	by     *bloom.Filter // the bystander's private filter (nil if none)
+	byMsg  *wire.MsgFilterLoad
+	bySh   c20Shape
 
 	gf      *gcs.Filter
 	gM      uint64
@@ -490,6 +510,13 @@ func buildWorld(t *kit.Trace) (*c20World, error) {
 			}
 			w.shapes = append(w.shapes, c20Shape{n, hf, tw, fl})
 			w.msgs = append(w.msgs, wire.NewMsgFilterLoad(make([]byte, n), hf, tw, wire.BloomUpdateType(fl)))
+		case "bymsg":
+			n, hf, tw, fl, ok := shapeOK(o)
+			if ok {
+				w.bySh = c20Shape{n, hf, tw, fl}
+				w.byMsg = wire.NewMsgFilterLoad(make([]byte, n), hf, tw, wire.BloomUpdateType(fl))
+				w.by = bloom.LoadFilter(w.byMsg)
+			}
 		case "init":
 			w.init = o.H
 		case "tx":
@@ -597,6 +624,12 @@ type scanResult struct {
 
 func (w *c20World) doOp(o kit.Op, scans *[]scanResult) int64 {
 	f := w.filter
+	if o.S == "by" {
+		if w.by == nil {
+			return 0
+		}
+		f = w.by
+	}
 	switch o.K {
 	case "isloaded":
 		return b2i(f.IsLoaded())
@@ -1023,6 +1056,9 @@ func (e *c20Engine) execute(t *kit.Trace, srng *kit.Rng, st *kit.Stats, record b
 			}
 		}
 	case kindLin:
+		if v := e.checkBystander(t, w, recs, st); v != nil {
+			return fail(v)
+		}
 		if !linCheckable(w) {
 			// wire-limit shapes: no porcupine (bit arrays too large for its
 			// state copies); insert/query-only histories still get the exact
@@ -1144,6 +1180,57 @@ func (e *c20Engine) linModel(w *c20World) porcupine.Model {
 	}
 }
 
+// checkBystander: the private filter's answers and final bits must equal a
+// purely sequential BIP37 evaluation of the bystander's own operations.
+func (e *c20Engine) checkBystander(t *kit.Trace, w *c20World, recs [][]opRec, st *kit.Stats) *kit.Violation {
+	if w.by == nil {
+		return nil
+	}
+	m := model.NewBloomMsg(w.bySh.n, w.bySh.hf, w.bySh.tw, w.bySh.fl)
+	mb := model.Bloom{Cur: m}
+	for c := range recs {
+		for i, r := range recs[c] {
+			o := t.Clients[c][i]
+			if o.S != "by" || !r.done {
+				continue
+			}
+			st.Probe("bystander-operation-on-private-filter")
+			var want int64
+			switch o.K {
+			case "isloaded":
+				want = 1
+			case "msg":
+				want = -1 // not one of the shared message objects
+			case "add", "addhash":
+				mb.Add(o.Data())
+			case "addop":
+				var h [32]byte
+				copy(h[:], o.Data())
+				mb.Add(model.OutPointBytes(h, uint32(o.Arg(0))))
+			case "match":
+				want = b2i(mb.Matches(o.Data()))
+			case "matchop":
+				var h [32]byte
+				copy(h[:], o.Data())
+				want = b2i(mb.Matches(model.OutPointBytes(h, uint32(o.Arg(0)))))
+			case "mtx":
+				if o.H >= 0 && o.H < len(w.views) {
+					want = b2i(mb.MatchAndUpdate(w.views[o.H]))
+				}
+			default:
+				continue
+			}
+			if r.out != want {
+				return kit.V("interference:private-filter-disturbed", "a task using its own private filter (tweak %d) got %d from %s where the sequential BIP37 evaluation of its own operations gives %d: another filter's activity disturbed it", w.bySh.tw, r.out, o.String(), want)
+			}
+		}
+	}
+	if !bytes.Equal(w.byMsg.Filter, m.Bits) {
+		return kit.V("interference:private-filter-disturbed", "the private filter's bits %x differ from the sequential BIP37 evaluation %x of its owner's operations", w.byMsg.Filter, m.Bits)
+	}
+	return nil
+}
+
 func linCheckable(w *c20World) bool {
 	if len(w.shapes) > 4 {
 		return false
@@ -1192,6 +1279,9 @@ func (e *c20Engine) checkLin(t *kit.Trace, w *c20World, recs [][]opRec, snap *li
 				continue
 			}
 			o := t.Clients[c][i]
+			if o.S == "by" {
+				continue
+			}
 			in := &linIn{k: o.K, h: o.H}
 			switch o.K {
 			case "add", "match", "addhash":
@@ -1269,6 +1359,9 @@ func (e *c20Engine) checkMonotone(t *kit.Trace, w *c20World, recs [][]opRec, sna
 	for c := range recs {
 		for i, r := range recs[c] {
 			o := t.Clients[c][i]
+			if o.S == "by" {
+				continue
+			}
 			switch o.K {
 			case "add", "addhash", "addop":
 				if r.invoked {
@@ -1305,6 +1398,9 @@ func (e *c20Engine) checkMonotone(t *kit.Trace, w *c20World, recs [][]opRec, sna
 				continue
 			}
 			o := t.Clients[c][i]
+			if o.S == "by" {
+				continue
+			}
 			switch o.K {
 			case "isloaded":
 				if r.out != b2i(w.init > 0) {
